@@ -410,4 +410,185 @@ theorem cInvS_set (pm : PMap) (pages : List CPage) (h : CInvS pm pages) (idx : N
   · exact h.pagesOk p hp
   · exact hp ▸ hq
 
+/-! ### single-value operations -/
+
+theorem aview_getD_oob (pages : List CPage) : (pages.getD pages.length CPage.zero).abs = Page.zero := by
+  rw [List.getD_eq_getElem?_getD, List.getElem?_eq_none (Nat.le_refl _)]
+  exact CPage.abs_zero
+
+theorem ensurePage_aview (pm : PMap) (pages : List CPage) (m : Nat) :
+    ensurePage (aview pm pages) m =
+      if (searchMap pm m).1 then aview pm pages
+      else aview (insertAt pm (searchMap pm m).2 (m, pages.length)) pages :=
+  ensurePage_map (fun i => (pages.getD i CPage.zero).abs) pm m pages.length (aview_getD_oob pages)
+
+theorem getD_mem_of_lt {pm : PMap} {i : Nat} (h : i < pm.length) : pm.getD i (0, 0) ∈ pm := by
+  rw [List.getD_eq_getElem?_getD, List.getElem?_eq_getElem h]
+  exact List.getElem_mem h
+
+/-- `ensure_page_index_for_major` on the structure (the cached `length` is passed through) -/
+theorem ensure_specS (s : CBitSet) (m : Nat) (h : CInvS s.pageMap s.pages) :
+    CInvS (s.ensurePageIndexForMajor m).1.pageMap (s.ensurePageIndexForMajor m).1.pages ∧
+    aview (s.ensurePageIndexForMajor m).1.pageMap (s.ensurePageIndexForMajor m).1.pages
+      = ensurePage (aview s.pageMap s.pages) m ∧
+    (s.ensurePageIndexForMajor m).1.len = s.len ∧
+    (s.ensurePageIndexForMajor m).2 < (s.ensurePageIndexForMajor m).1.pages.length ∧
+    (m, (s.ensurePageIndexForMajor m).2) ∈ (s.ensurePageIndexForMajor m).1.pageMap := by
+  obtain ⟨s1, _, _, _, s5, s6⟩ := searchMap_spec s.pageMap h.sorted m
+  have hv := ensurePage_aview s.pageMap s.pages m
+  unfold CBitSet.ensurePageIndexForMajor
+  simp only []
+  cases hr : (searchMap s.pageMap m).1
+  · -- miss
+    rw [hr] at hv
+    simp only [Bool.false_eq_true, if_false] at hv ⊢
+    have hperm := insertAt_perm s.pageMap (searchMap s.pageMap m).2 (m, s.pages.length)
+    have hmem : ∀ e, e ∈ insertAt s.pageMap (searchMap s.pageMap m).2 (m, s.pages.length) ↔
+        e = (m, s.pages.length) ∨ e ∈ s.pageMap := by
+      intro e; rw [hperm.mem_iff]; simp
+    refine ⟨⟨?_, ?_, ?_, ?_, ?_⟩, ?_, by first | rfl | trivial, by simp, ?_⟩
+    · rw [hperm.length_eq]; simp [h.lenEq]
+    · have := ensurePage_sorted m (aview_inv _ _ h).1
+      rw [hv, sorted_iff_keys, aview_keys] at this
+      exact this
+    · rw [(hperm.map (·.2)).nodup_iff]
+      simp only [List.map_cons, List.nodup_cons]
+      refine ⟨?_, h.idxNodup⟩
+      intro hc
+      simp only [List.mem_map] at hc
+      obtain ⟨e, he, he2⟩ := hc
+      have := h.idxLt e he
+      omega
+    · intro e he
+      rw [List.length_append]
+      rcases (hmem e).1 he with rfl | he
+      · simp
+      · have := h.idxLt e he; simp; omega
+    · intro p hp
+      simp only [List.mem_append, List.mem_singleton] at hp
+      rcases hp with hp | rfl
+      · exact h.pagesOk p hp
+      · exact cpageOk_zero
+    · rw [aview_append_zero]; exact hv.symm
+    · exact (hmem _).2 (Or.inl rfl)
+  · -- hit
+    rw [hr] at hv
+    simp only [if_true] at hv ⊢
+    obtain ⟨j1, j2⟩ := s5 hr
+    have hmem := getD_mem_of_lt j1
+    refine ⟨h, hv.symm, by first | rfl | trivial, h.idxLt _ hmem, ?_⟩
+    have heq : s.pageMap.getD (searchMap s.pageMap m).2 (0, 0) =
+        (m, (s.pageMap.getD (searchMap s.pageMap m).2 (0, 0)).2) := Prod.ext j2 rfl
+    rw [heq] at hmem
+    exact hmem
+
+theorem CBitSet.ensure_spec (s : CBitSet) (m : Nat) (h : CInv s) :
+    let e := s.ensurePageIndexForMajor m
+    CInv e.1 ∧ e.1.abs = ⟨ensurePage s.abs.pages m, s.abs.len⟩ ∧ e.2 < e.1.pages.length ∧
+      (m, e.2) ∈ e.1.pageMap := by
+  obtain ⟨e1, e2, e3, e4, e5⟩ := ensure_specS s m h.toS
+  have habs : (s.ensurePageIndexForMajor m).1.abs = ⟨ensurePage s.abs.pages m, s.abs.len⟩ := by
+    rw [CBitSet.abs_eq, e2, e3, CBitSet.abs_eq s]
+  refine ⟨?_, habs, e4, e5⟩
+  apply cInv_of_struct e1
+  rw [habs]
+  have hb := CBitSet.abs_inv s h
+  exact ⟨ensurePage_inv m hb.1, by rw [sumLens_ensurePage]; exact hb.2⟩
+
+theorem pageIndexForMajor_spec (s : CBitSet) (m : Nat) (h : CInvS s.pageMap s.pages) :
+    (∀ idx, s.pageIndexForMajor m = some idx → (m, idx) ∈ s.pageMap ∧ idx < s.pages.length) ∧
+    (s.pageIndexForMajor m = none → ∀ e ∈ s.pageMap, e.1 ≠ m) := by
+  obtain ⟨s1, _, _, _, s5, s6⟩ := searchMap_spec s.pageMap h.sorted m
+  unfold CBitSet.pageIndexForMajor
+  simp only []
+  cases hr : (searchMap s.pageMap m).1
+  · simp only [Bool.false_eq_true, if_false]
+    exact ⟨fun idx hc => by simp at hc, fun _ => s6 hr⟩
+  · simp only [if_true]
+    obtain ⟨j1, j2⟩ := s5 hr
+    have hmem := getD_mem_of_lt j1
+    refine ⟨fun idx hc => ?_, fun hc => by simp at hc⟩
+    simp only [Option.some.injEq] at hc
+    have heq : s.pageMap.getD (searchMap s.pageMap m).2 (0, 0) = (m, idx) := Prod.ext j2 hc
+    rw [heq] at hmem
+    exact ⟨hmem, h.idxLt _ hmem⟩
+
+theorem CBitSet.insert_abs (s : CBitSet) (v : Nat) (h : CInv s) :
+    (s.insert v).1.abs = (s.abs.insert v).1 ∧ (s.insert v).2 = (s.abs.insert v).2 := by
+  obtain ⟨e1, e2, e3, e4⟩ := CBitSet.ensure_spec s (majorOf v) h
+  generalize he : s.ensurePageIndexForMajor (majorOf v) = e at e1 e2 e3 e4
+  have hl := lookup_aview e.1.pageMap e.1.pages e1.toS _ _ e4
+  have hp : CPageOk (e.1.pages.getD e.2 CPage.zero) := e1.pagesOk _ (cv_getD_mem _ _ _ e3)
+  obtain ⟨a1, a2⟩ := CPage.insert_abs _ v hp
+  rw [CBitSet.abs_eq e.1] at e2
+  injection e2 with e2p e2l
+  unfold CBitSet.insert BitSet.insert
+  simp only []
+  rw [he, ← e2p, hl]
+  simp only []
+  refine ⟨?_, a2⟩
+  rw [CBitSet.abs_eq]
+  simp only []
+  rw [aview_set _ _ e1.toS _ _ _ e4, a1, a2, e2l]
+
+theorem CBitSet.insert_inv (s : CBitSet) (v : Nat) (h : CInv s) : CInv (s.insert v).1 := by
+  apply cInv_of_struct
+  · obtain ⟨e1, e2, e3, e4⟩ := CBitSet.ensure_spec s (majorOf v) h
+    have hp : CPageOk ((s.ensurePageIndexForMajor (majorOf v)).1.pages.getD
+        (s.ensurePageIndexForMajor (majorOf v)).2 CPage.zero) := e1.pagesOk _ (cv_getD_mem _ _ _ e3)
+    exact cInvS_set _ _ e1.toS _ _ (CPage.insert_ok _ v hp)
+  · rw [(CBitSet.insert_abs s v h).1]
+    exact BitSet.insert_inv _ v (CBitSet.abs_inv s h)
+
+theorem CBitSet.contains_abs (s : CBitSet) (v : Nat) (h : CInv s) : s.contains v = s.abs.contains v := by
+  obtain ⟨p1, p2⟩ := pageIndexForMajor_spec s (majorOf v) h.toS
+  unfold CBitSet.contains BitSet.contains
+  rw [CBitSet.abs_eq]
+  simp only []
+  cases hi : s.pageIndexForMajor (majorOf v) with
+  | none =>
+    rw [lookup_aview_none _ _ _ (p2 hi)]
+  | some idx =>
+    obtain ⟨q1, q2⟩ := p1 idx hi
+    rw [lookup_aview _ _ h.toS _ _ q1]
+    simp only [q2, if_true]
+    exact CPage.contains_abs _ v (h.pagesOk _ (cv_getD_mem _ _ _ q2))
+
+theorem CBitSet.remove_abs (s : CBitSet) (v : Nat) (h : CInv s) :
+    (s.remove v).1.abs = (s.abs.remove v).1 ∧ (s.remove v).2 = (s.abs.remove v).2 := by
+  obtain ⟨p1, p2⟩ := pageIndexForMajor_spec s (majorOf v) h.toS
+  unfold CBitSet.remove BitSet.remove
+  rw [CBitSet.abs_eq s]
+  simp only []
+  cases hi : s.pageIndexForMajor (majorOf v) with
+  | none =>
+    rw [lookup_aview_none _ _ _ (p2 hi)]
+    simp only []
+    exact ⟨CBitSet.abs_eq s, by first | rfl | trivial⟩
+  | some idx =>
+    obtain ⟨q1, q2⟩ := p1 idx hi
+    rw [lookup_aview _ _ h.toS _ _ q1]
+    simp only [q2, if_true]
+    obtain ⟨a1, a2⟩ := CPage.remove_abs _ v (h.pagesOk _ (cv_getD_mem _ _ _ q2))
+    refine ⟨?_, a2⟩
+    rw [CBitSet.abs_eq]
+    simp only []
+    rw [aview_set _ _ h.toS _ _ _ q1, a1, a2]
+
+theorem CBitSet.remove_inv (s : CBitSet) (v : Nat) (h : CInv s) : CInv (s.remove v).1 := by
+  apply cInv_of_struct
+  · obtain ⟨p1, p2⟩ := pageIndexForMajor_spec s (majorOf v) h.toS
+    unfold CBitSet.remove
+    cases hi : s.pageIndexForMajor (majorOf v) with
+    | none => exact h.toS
+    | some idx =>
+      obtain ⟨q1, q2⟩ := p1 idx hi
+      simp only [q2, if_true]
+      exact cInvS_set _ _ h.toS _ _ (CPage.remove_ok _ v (h.pagesOk _ (cv_getD_mem _ _ _ q2)))
+  · rw [(CBitSet.remove_abs s v h).1]
+    exact BitSet.remove_inv _ v (CBitSet.abs_inv s h)
+
+theorem CBitSet.clear_inv (s : CBitSet) : CInv s.clear := cInv_empty
+theorem CBitSet.clear_abs (s : CBitSet) : s.clear.abs = BitSet.empty := rfl
+
 end FontVerif.IntSet
